@@ -169,6 +169,20 @@ def gen():
     o.append("")
     o.append(f"/-- `Update` compares only the value fields given in the `from` literal ({MACH}) -/")
     o.append(f"def updateGivenOnly : Bool := {'true' if given_only else 'false'}")
+    # ---- error-position lookup: SpannedText::linecol's assertion on the position
+    CM = "crates/aranya-policy-module/src/codemap.rs"
+    cflat = re.sub(r"\s+", "", strip_comments(read(CM)))
+    mm = re.search(r"fnlinecol\(&self,pos:usize\)->\(usize,usize\)\{(assert!\(pos(<=?)self\.text\.len\(\)\);)?", cflat)
+    if not mm:
+        unrecognised.append("codemap.rs: SpannedText::linecol not recognised")
+        strict = False
+    elif mm.group(1) is None:
+        strict = False
+    else:
+        strict = (mm.group(2) == "<")
+    o.append("")
+    o.append(f"/-- `SpannedText::linecol` asserts `pos < text.len()` (strict), which fails for a span that starts at the end of the text ({CM}) -/")
+    o.append(f"def linecolAssertStrict : Bool := {'true' if strict else 'false'}")
     o.append("")
     o.append("/-- the `QueryStart`/`QueryNext`/`Update` arms have one of the shapes the model knows -/")
     o.append(f"def armsRecognised : Bool := {'true' if not unrecognised else 'false'}")
